@@ -220,6 +220,8 @@ func (c chainSpec) build() (*memory.Database, error) {
 				hd.TransactionCount++
 				_ = core.WriteBlockHeaderByNumber(d, hd)
 			}
+		case "set-height": // the chain height key says b although more blocks are stored
+			_ = core.WriteChainHeight(d, b)
 		case "drop-last-receipt":
 			if n := c2count(d, b); n > 0 {
 				_ = core.ReceiptsByBlockNumberAndIndexBucket.Delete(d, db.BlockNumIndexKey{Number: b, Index: uint64(n - 1)})
